@@ -33,7 +33,7 @@ NOTE = ("Trusted: Lean 4.33.0 kernel; axioms ⊆ {propext, Classical.choice, Quo
 TIE = {
  "C01": "validate_bytes, Token::{from_encoded,new,decoded}, the seven range `get` impls, 13 `Pointer` methods, `from_tokens` and the seven `PointerBuf` mutators",
  "C02": "validate_bytes, `validate` and the doors `Pointer::parse`, `PointerBuf::parse`, `TryFrom<&str>`, `TryFrom<String>`, `FromStr for PointerBuf` (the serde doors and `from_static` are not translated)", "C14": "validate_bytes, the `ParseError` accessors `offset` / `pointer_offset` / `source_offset` / `complete_offset` / `invalid_encoding_len` and `<ParseError as Diagnostic>::labels`", "C03": "Token::from_encoded, Token::new, Token::decoded",
- "C04": "Pointer::{is_root,count,back,front,first,last,with_trailing_token,with_leading_token,concat}, `get(usize)`, PointerBuf::{from_tokens,push_back,push_front,append}", "C12": "the seven `PointerIndex::get` impls, split_front, split_at, split_back, parent",
+ "C04": "Pointer::{is_root,count,back,front,first,last,with_trailing_token,with_leading_token,concat}, `get(usize)`, PointerBuf::{from_tokens,push_back,push_front,append}, `Pointer::tokens` with `Tokens::next`, `Components::from` with `Components::next`", "C12": "the seven `PointerIndex::get` impls, split_front, split_at, split_back, parent",
  "C13": "Pointer::{starts_with,strip_prefix,ends_with,strip_suffix,intersection,is_root,split_at} and PointerBuf::append",
  "C16": "Index::from_str, Index::{for_len,for_len_incl,for_len_unchecked}, `Token::to_index` and both `TryFrom<Token>` impls",
  "C11": "PointerBuf::{push_front,push_back,pop_front,pop_back,append,replace,clear,from_tokens}",
